@@ -82,9 +82,10 @@ type Skeletons struct {
 	PkgVars        []PkgVar
 	MerklizerMeths []MethodWrites
 	LoaderMeths    []MethodWrites
-	MethodCallsOn  []string // "pkg.var.Method" calls on package variables (not judged; listed)
-	Skipped        []string // files left out because of their build constraint (verification hooks)
-	Helpers        []string // unexported methods only called by other methods of the engine (checked inlined)
+	LoaderShared   []MethodWrites // writes through possibly shared (cached) document pointers
+	MethodCallsOn  []string       // "pkg.var.Method" calls on package variables (not judged; listed)
+	Skipped        []string       // files left out because of their build constraint (verification hooks)
+	Helpers        []string       // unexported methods only called by other methods of the engine (checked inlined)
 }
 
 type PkgVar struct {
@@ -391,6 +392,95 @@ func (p *pkgInfo) methodFieldWrites(typ string) []MethodWrites {
 	}
 	sort.Slice(r, func(i, j int) bool { return r[i].Name < r[j].Name })
 	return r
+}
+
+// sharedPointerWrites lists, for every method of the named struct type, assignments through a
+// local variable whose textually latest assignment came from a call that may hand out a shared
+// (cached) document: <recv>.<cacheField>.Get(...) or a method of the same type whose first
+// result is a pointer (*ld.RemoteDocument).  Heuristic, flow-insensitive across branches: the
+// "latest assignment" is the last one before the write in source order.
+func (p *pkgInfo) sharedPointerWrites(typ, cacheField string) []MethodWrites {
+	ptrMethods := map[string]bool{}
+	var decls []*ast.FuncDecl
+	for _, f := range p.files {
+		for _, d := range f.Decls {
+			fd, ok := d.(*ast.FuncDecl)
+			if !ok || fd.Recv == nil || fd.Body == nil || len(fd.Recv.List) != 1 || recvTypeName(fd.Recv.List[0].Type) != typ {
+				continue
+			}
+			decls = append(decls, fd)
+			if fd.Type.Results != nil && len(fd.Type.Results.List) > 0 {
+				if _, isPtr := fd.Type.Results.List[0].Type.(*ast.StarExpr); isPtr {
+					ptrMethods[fd.Name.Name] = true
+				}
+			}
+		}
+	}
+	sharedCall := func(e ast.Expr) bool {
+		c, ok := e.(*ast.CallExpr)
+		if !ok {
+			return false
+		}
+		sel, ok := c.Fun.(*ast.SelectorExpr)
+		if !ok {
+			return false
+		}
+		if in, ok := sel.X.(*ast.SelectorExpr); ok && in.Sel.Name == cacheField && sel.Sel.Name == "Get" {
+			return true
+		}
+		if _, ok := sel.X.(*ast.Ident); ok && ptrMethods[sel.Sel.Name] {
+			return true
+		}
+		return false
+	}
+	var out []MethodWrites
+	for _, fd := range decls {
+		shared := map[*ast.Object]bool{}
+		ws := map[string]bool{}
+		ast.Inspect(fd.Body, func(n ast.Node) bool {
+			as, ok := n.(*ast.AssignStmt)
+			if !ok {
+				if id, ok := n.(*ast.IncDecStmt); ok {
+					if r := rootIdent(id.X); r != nil && r.Obj != nil && shared[r.Obj] {
+						if _, plain := id.X.(*ast.Ident); !plain {
+							ws[r.Name+"."+firstField(id.X)] = true
+						}
+					}
+				}
+				return true
+			}
+			// writes through variables, judged with the state before this statement
+			for _, l := range as.Lhs {
+				if _, plain := l.(*ast.Ident); plain {
+					continue
+				}
+				if r := rootIdent(l); r != nil && r.Obj != nil && shared[r.Obj] {
+					ws[r.Name+"."+firstField(l)] = true
+				}
+			}
+			// then the new state of plainly assigned variables
+			for i, l := range as.Lhs {
+				id, plain := l.(*ast.Ident)
+				if !plain || id.Obj == nil {
+					continue
+				}
+				switch {
+				case len(as.Rhs) == 1 && len(as.Lhs) > 1:
+					shared[id.Obj] = i == 0 && sharedCall(as.Rhs[0])
+				case i < len(as.Rhs):
+					if rid, ok := as.Rhs[i].(*ast.Ident); ok && rid.Obj != nil {
+						shared[id.Obj] = shared[rid.Obj] // alias
+					} else {
+						shared[id.Obj] = sharedCall(as.Rhs[i])
+					}
+				}
+			}
+			return true
+		})
+		out = append(out, MethodWrites{Name: fd.Name.Name, Fields: sortedKeys(ws)})
+	}
+	sort.Slice(out, func(i, j int) bool { return out[i].Name < out[j].Name })
+	return out
 }
 
 // firstField of recv.f.g[k] is "f"; of recv itself "*".
@@ -1112,6 +1202,7 @@ func Extract(repo string) (*Skeletons, error) {
 	out.PkgVars = append(lp.pkgVars(), mp.pkgVars()...)
 	out.MerklizerMeths = mp.methodFieldWrites("Merklizer")
 	out.LoaderMeths = lp.methodFieldWrites("documentLoader")
+	out.LoaderShared = lp.sharedPointerWrites("documentLoader", "cacheEngine")
 	calls := map[string]bool{}
 	for k := range lp.calls {
 		calls[k] = true
@@ -1181,6 +1272,8 @@ func Render(sk *Skeletons) string {
 	wr("generated_merklizer_methods", sk.MerklizerMeths)
 	b.WriteString("(* methods of *loaders.documentLoader with the receiver fields they write *)\n")
 	wr("generated_loader_methods", sk.LoaderMeths)
+	b.WriteString("(* methods of *loaders.documentLoader with the assignments they make through a local variable whose latest\n   assignment (in source order) came from cacheEngine.Get or from a method of documentLoader returning a\n   pointer, i.e. through a document that may be the shared cache entry: \"variable.field\" *)\n")
+	wr("generated_loader_shared_writes", sk.LoaderShared)
 	b.WriteString("(* method calls made on package variables (listed, not judged by the translator) *)\n")
 	fmt.Fprintf(&b, "Definition generated_calls_on_pkg_vars : list string :=\n  %s.\n\n", strList(sk.MethodCallsOn))
 	b.WriteString("(* files not analysed because their build constraint excludes them from a build without custom tags\n   (verification hooks, //go:build verif) *)\n")
